@@ -41,6 +41,8 @@ THEOREMS = [
     "C17_empty_output_valid_stream_flush_close", "C17_split", "C17_split_bare_close_partial",
     "C17_refuted_split_bare_close", "C17_split_part_names_distinct", "C17_note_split_suffix_overflow",
     "C17_rotation", "C17_rotated_names_distinct", "C17_refuted_rotation_same_second_if_reverted",
+    "C17_generated_writer_table", "C17_writer_set", "C17_close_flush_never_raise", "C17_generated_stdout_shapes",
+    "C17_stdout_exit_delivers", "C17_stdout_text_delivers_at_once", "C17_stdout_printer_delivers_at_once",
 ]
 
 UTC = _dt.timezone.utc
@@ -102,6 +104,16 @@ TARGETS = {
     "avro": ("AAvro", "avro", ".avro", "{p}", "{p}", None, 1000),
     "sqlite": ("ASqlite", "sqlite", ".sqlite", "sqlite://{p}", "sqlite://{p}", None, 1000),
     "sqlite.b2": ("ASqlite", "sqlite", ".sqlite", "sqlite://{p}?batch_size=2", "sqlite://{p}", None, 2),
+    "avro.gz": ("AAvro", "avro", ".avro.gz", "avro://{p}", "avro://{p}", "gz", 1000),
+    "avro.bz2": ("AAvro", "avro", ".avro.bz2", "avro://{p}", "avro://{p}", "bz2", 1000),
+    "avro.lz4": ("AAvro", "avro", ".avro.lz4", "avro://{p}", "avro://{p}", "lz4", 1000),
+    "avro.zst": ("AAvro", "avro", ".avro.zst", "avro://{p}", "avro://{p}", "zst", 1000),
+    "line.gz": ("APlain", "text", ".txt.gz", "line://{p}", None, "gz", 1000),
+    "line.zst": ("APlain", "text", ".txt.zst", "line://{p}", None, "zst", 1000),
+    "text.gz": ("APlain", "text", ".txt.gz", "text://{p}", None, "gz", 1000),
+    "text.bz2": ("APlain", "text", ".txt.bz2", "text://{p}", None, "bz2", 1000),
+    "text.lz4": ("APlain", "text", ".txt.lz4", "text://{p}", None, "lz4", 1000),
+    "text.zst": ("APlain", "text", ".txt.zst", "text://{p}", None, "zst", 1000),
     "csvfile": ("APlain", "text", ".csv", "{p}", None, None, 1000),
     "line": ("APlain", "text", ".txt", "line://{p}", None, None, 1000),
     "text": ("APlain", "text", ".txt", "text://{p}", None, None, 1000),
@@ -237,19 +249,19 @@ def observe_file(family, codec, path, reader_uri):
             obs["indep"] = recs
             obs["indep_records"] = recs
         elif family == "text":
-            recs = [(a, int(b)) for a, b in MARK.findall(raw.decode("utf-8", "surrogateescape"))]
+            recs = [(a, int(b)) for a, b in MARK.findall(decompress(codec, raw).decode("utf-8", "surrogateescape"))]
             obs["indep"] = recs
             obs["indep_records"] = recs
         elif family == "avro":
-            if len(raw) == 0:
+            plain = decompress(codec, raw) if raw else raw
+            if len(plain) == 0:
                 obs["indep"] = ("KNone", [])
                 obs["indep_records"] = None
             else:
                 import fastavro
-                with open(path, "rb") as fp:
-                    rd = fastavro.reader(fp)
-                    schema_name = rd.writer_schema.get("name")
-                    items = list(rd)
+                rd = fastavro.reader(io.BytesIO(plain))
+                schema_name = rd.writer_schema.get("name")
+                items = list(rd)
                 if schema_name == "empty":
                     obs["indep"] = ("KEmpty", [None] * len(items))
                     obs["indep_records"] = [] if not items else None
@@ -419,6 +431,10 @@ Definition chk_split (k : adapter) (count suffix_length : nat) (name netloc path
        | Some (_, f, r) => file_same (snd nf) f && reader_same (readable (snd nf)) r
        | None => false
        end) (split_files st).
+(* the stdout target: after each operation its outcome and the records that have left sys.stdout's buffer *)
+Definition chk_stdout (kind : okind) (h : list op) (trace : list (outcome * list rec)) : bool :=
+  list_eqb (fun a b => outcome_eqb (fst a) (fst b) && list_eqb rec_eqb (snd a) (snd b))
+           (o_trace writer_shapes (stdout_shapes kind) o_init h) trace.
 (* the path-template writer: the files on disk afterwards, by relative path *)
 Definition chk_rot (k : adapter) (pre : list (path * file)) (clock : list stamp) (h : list pop)
                    (outs : list outcome) (files : list obs) : bool :=
@@ -549,6 +565,7 @@ def history_case(tname, hist, workdir):
         if obs["indep_records"] != expected:
             problems.append("%s: independent read gives %s, written: %s" % (
                 label, obs["indep_err"] or obs["indep_records"], expected))
+    problems += unexpected_raises(family, hist, outs, errors)
     kcase = None
     if problems:
         full = list(hist) + ["Del"]
@@ -578,6 +595,36 @@ def history_case(tname, hist, workdir):
     meta = dict(kind="history", target=tname, history=list(hist), outcomes=outs, written=[list(x) for x in written],
                 errors=errors, before_del=_obs_brief(obs1) if has_close else None, after_del=_obs_brief(obs2))
     return Case(terms, meta, problems, kcase)
+
+
+def unexpected_raises(family, hist, outs, errors):
+    """flush / close / leaving a with-block never raise (a writer may be closed twice, closed inside its with-block,
+    flushed after close); write() may raise only on a closed writer, for Avro on a second descriptor, or for a record
+    that cannot be encoded"""
+    problems = []
+    closed = False
+    first = None
+    ei = 0
+    for op, out in zip(hist, outs):
+        err = None
+        if out == "Raised":
+            err = errors[ei] if ei < len(errors) else "?"
+            ei += 1
+        if op[0] == "W":
+            letter = "A" if op[1] == "P" else op[1]
+            allowed = closed or op[1] == "P" or (family == "avro" and first is not None and letter != first)
+            if first is None and not closed:
+                first = letter
+            if err and not allowed:
+                problems.append("write() of a valid record on an open writer raised %s" % err)
+        else:
+            if err:
+                problems.append("%s raised %s" % ({"F": "flush()", "C": "close()", "X": "leaving the with-block",
+                                                 "E": "leaving the with-block by an exception",
+                                                 "K": "leaving the with-block by KeyboardInterrupt"}[op], err))
+            if op in ("C",) + EXITS:
+                closed = True
+    return problems
 
 
 def _opt(t):
@@ -614,6 +661,78 @@ def history_plan(tier):
     for name in available_targets():
         plan[name] = main if name in ("stream", "jsonfile", "avro", "sqlite") else side
     return plan
+
+
+# ------------------------------------------------------------------------------------------------------
+# 1b. the stdout target
+
+STDOUT_OPS = ["W", "F", "C", "X", "E"]
+
+
+def stdout_case(kind, hist, workdir):
+    """hist over W (write a record of descriptor A) / F / C / X / E on RecordWriter(<stdout uri of the kind>) with sys.stdout
+    replaced by a buffered file object (a pseudo terminal for OPrinter)"""
+    from flow.record import RecordWriter
+    from vf.factgen import c17 as facts
+    uri, tty = {k: (u, t) for k, u, t in facts.STDOUT_KINDS}[kind]
+    outs, errors, trace, accepted = [], [], [], []
+    with facts.FakeStdout(workdir, tty) as fs:
+        w = _lib(lambda: RecordWriter(uri), "RecordWriter(%r)" % uri)
+        nid = 0
+        for op in hist:
+            try:
+                if op == "W":
+                    r = mkrec("A", nid)
+                    nid += 1
+                    w.write(r)
+                    accepted.append(("A", nid - 1))
+                elif op == "F":
+                    w.flush()
+                elif op == "C":
+                    w.close()
+                else:
+                    leave_with_block(w, op)
+                outs.append("Ok")
+            except Exception as e:  # noqa
+                outs.append("Raised")
+                errors.append("%s: %s" % (type(e).__name__, str(e)[:80]))
+            trace.append((outs[-1], list(accepted), facts.delivered_marks(kind, fs.snapshot())))
+        del w
+        gc.collect()
+    problems = []
+    if fs.stdout_closed:
+        problems.append("the writer closed sys.stdout")
+    # the property's oracle: (a) leaving the with-block of a writer that is still open delivers everything accepted;
+    # (b) the text writer and the record printer deliver every record at once; (c) nothing but write() raises
+    is_open = True
+    autoflush = kind in ("OText", "OPrinter")
+    for op, (out, acc, got) in zip(hist, trace):
+        if op in EXITS and is_open and got != acc:
+            problems.append("after %s: %s have left stdout's buffer, accepted so far: %s" % (
+                "leaving the with-block" if op == "X" else "leaving the with-block by an exception", got, acc))
+        if autoflush and got != acc:
+            problems.append("after %s: %s have left stdout's buffer, accepted so far: %s (this writer flushes after every record)" % (op, got, acc))
+            break
+        if got != acc[:len(got)]:
+            problems.append("stdout received %s, accepted: %s" % (got, acc))
+        if op in ("C",) + EXITS:
+            is_open = False
+    problems += unexpected_raises("stdout", ["WA" if o == "W" else o for o in hist], outs, errors)
+    term = "chk_stdout %s %s %s" % (kind, clist(["Write (R 1 %d)" % i if o == "W" else {"F": "Flush", "C": "Close", "X": "WithExit", "E": "WithExitExc"}[o]
+                                                 for o, i in zip(hist, _write_ids(hist))]),
+                                    clist(["(%s, %s)" % (out, c_recs(got)) for out, acc, got in trace]))
+    meta = dict(kind="stdout", writer=kind, uri=uri, terminal=tty, history=list(hist), outcomes=outs, errors=errors,
+                delivered_after_each_op=[[list(x) for x in got] for _, _, got in trace])
+    return Case([term], meta, problems[:4], None)
+
+
+def _write_ids(hist):
+    out, i = [], 0
+    for o in hist:
+        out.append(i)
+        if o == "W":
+            i += 1
+    return out
 
 
 # ------------------------------------------------------------------------------------------------------
@@ -925,7 +1044,7 @@ def rot_py(rel, stamp):
     return os.path.join(d, out) if d else out
 
 
-def run_rotation(tkind, ops, clock_mode, pre_kind, workdir, archive=False):
+def run_rotation(tkind, ops, clock_mode, pre_kind, workdir, archive=False, name="records"):
     """ops: ("W", hour) | "C".  -> dict(...)"""
     import flow.record.stream as S
     from flow.record import RecordWriter
@@ -945,7 +1064,7 @@ def run_rotation(tkind, ops, clock_mode, pre_kind, workdir, archive=False):
 
     def rel_of(hour):
         r = mkrec("A", 0, ts_of(hour))
-        return tmpl.format(name="records", record=r, ts=r._generated)
+        return tmpl.format(name=name, record=r, ts=r._generated)
 
     pre = {}
     if pre_kind in ("target", "target+rotated"):
@@ -963,9 +1082,9 @@ def run_rotation(tkind, ops, clock_mode, pre_kind, workdir, archive=False):
     S.datetime = fake
     try:
         if archive:
-            w = _lib(lambda: RecordWriter("archive://" + d + "?name=records"), "RecordWriter('archive://...')")
+            w = _lib(lambda: RecordWriter("archive://" + d + "?name=" + name), "RecordWriter('archive://...')")
         else:
-            w = _lib(lambda: S.PathTemplateWriter(path_template=os.path.join(d, tmpl)), "PathTemplateWriter(...)")
+            w = _lib(lambda: S.PathTemplateWriter(path_template=os.path.join(d, tmpl), name=name), "PathTemplateWriter(...)")
         nid = 0
         for op in ops:
             try:
@@ -1026,8 +1145,9 @@ def rotation_collision(ops, pre, stamps, rel_of):
     return hit
 
 
-def rotation_case(tkind, ops, clock_mode, pre_kind, workdir, archive=False):
-    res = run_rotation(tkind, ops, clock_mode, pre_kind, workdir, archive)
+def rotation_case(tkind, ops, clock_mode, pre_kind, workdir, archive=False, name="records"):
+    rname = name
+    res = run_rotation(tkind, ops, clock_mode, pre_kind, workdir, archive, rname)
     family = res["family"]
     problems = []
     files = res["files"]
@@ -1069,6 +1189,24 @@ def rotation_case(tkind, ops, clock_mode, pre_kind, workdir, archive=False):
             lost.append(("A", rid))
     if lost:
         problems.insert(0, "records %s are in no file any more" % sorted(lost))
+    # write() of a valid record raises only on a closed writer that is asked for the path it was closed on
+    cur, closed, ei = None, False, 0
+    for op, out in zip(ops, res["outs"]):
+        err = None
+        if out == "Raised":
+            err = res["errors"][ei] if ei < len(res["errors"]) else "?"
+            ei += 1
+        if op == "C":
+            closed = True
+            if err:
+                problems.append("close() raised %s" % err)
+            continue
+        p = res["rel_of"](op[1])
+        expected_raise = closed and p == cur
+        if p != cur:
+            cur, closed = p, False
+        if err and not expected_raise:
+            problems.append("write() of a record for %s raised %s" % (p, err))
     kcase = None
     if problems:
         # (no known finding for the path-template writer: a rename never replaces a file)
@@ -1092,7 +1230,7 @@ def rotation_case(tkind, ops, clock_mode, pre_kind, workdir, archive=False):
         terms.append("chk_rot %s %s %s %s %s %s" % (res["k"], pre_t, clist([cstr(s) for s in res["stamps"]]), clist(pops),
                                                   c_outs(res["outs"] + ["Ok"]), obs_terms))
     meta = dict(kind="rotation", template=tkind, ops=[list(o) if o != "C" else "C" for o in ops], clock=clock_mode, pre=pre_kind,
-                archive=archive, outcomes=res["outs"], errors=res["errors"], now_calls=res["now_calls"],
+                archive=archive, name=rname, outcomes=res["outs"], errors=res["errors"], now_calls=res["now_calls"],
                 files={n: (o["reader"] if o["reader_err"] is None else o["reader_err"]) for n, o in files.items()})
     return Case(terms, meta, problems, kcase)
 
@@ -1126,6 +1264,15 @@ def rotation_plan(tier):
             plan.append(("daily", ops, "stepped", "none", True))       # through archive://
             plan.append(("daily", ops, "stepped", "none", "exc"))      # ... its with-block left by an exception
             plan.append(("daily", ops, "frozen", "none", True))
+    # hostile template values: names that contain the naming-convention suffix, dots, something like a rotation stamp
+    hostile = ["backup.records.gz", "a.records", "x.20210505T100000", "dots.in.name", ".records.gz.records.gz.x"]
+    for nm in hostile:
+        for hs in ([1], [1, 2, 1], [1, 1, 2, 2, 1]):
+            ops = tuple(("W", h) for h in hs)
+            plan.append(("default", ops, "stepped", "target", False, nm))
+            plan.append(("default", ops, "frozen", "target+rotated", False, nm))
+        plan.append(("plain", (("W", 1), ("W", 2), ("W", 1)), "frozen", "target", False, nm))
+        plan.append(("daily", (("W", 1), ("W", 2), ("W", 1)), "stepped", "none", True, nm))
     return plan
 
 
@@ -1142,7 +1289,9 @@ def _run_job(job):
         if kind == "split":
             return split_case(args[0], args[1], args[2], args[3], wd, args[4], matrix=args[5], spelling=args[6])
         if kind == "rotation":
-            return rotation_case(args[0], args[1], args[2], args[3], wd, args[4])
+            return rotation_case(args[0], args[1], args[2], args[3], wd, args[4], name=args[5] if len(args) > 5 else "records")
+        if kind == "stdout":
+            return stdout_case(args[0], args[1], wd)
         raise ValueError(kind)
     except Exception as e:  # the writer could not even be driven through the case
         import traceback
@@ -1152,8 +1301,11 @@ def _run_job(job):
         elif kind == "split":
             meta.update(target=args[0], history=list(args[1]), count=args[2], suffix_length=args[3], via=args[4], matrix=args[5],
                         spelling=args[6])
+        elif kind == "stdout":
+            meta.update(writer=args[0], history=list(args[1]))
         else:
-            meta.update(template=args[0], ops=[list(o) if o != "C" else "C" for o in args[1]], clock=args[2], pre=args[3], archive=args[4])
+            meta.update(template=args[0], ops=[list(o) if o != "C" else "C" for o in args[1]], clock=args[2], pre=args[3], archive=args[4],
+                        name=args[5] if len(args) > 5 else "records")
         if isinstance(e, LibraryFailure):
             return Case([], meta, [str(e)], None)
         # anything else is the harness's own failure (a recogniser, an observation tool, a bug): not a failing input
@@ -1201,10 +1353,21 @@ def plan_jobs(ctx):
             if hist:
                 jobs.append((("split", root, (tname, hist, 2, 2, "writer", False, "abs")), ("split-history", tname, hist), True))
     ctx.notes.append("split: %d matrix cases (N x limit x suffix length x target x closing op x writer|rdump) + histories <= %d on split://" % (nsplit, maxlen))
+    # the stdout target, every writer kind that supports it
+    from vf.factgen import c17 as facts
+    nso = 0
+    for kind, _, _ in facts.STDOUT_KINDS:
+        for n in range(0, (3 if ctx.tier == "quick" else 4) + 1):
+            for hist in itertools.product(STDOUT_OPS, repeat=n):
+                nso += 1
+                jobs.append((("stdout", root, (kind, hist)), ("stdout", kind, hist), len(hist) > 0))
+    ctx.notes.append("stdout target (sys.stdout = a buffered file object, a pseudo terminal for the record printer): %d histories over "
+                     "write/flush/close/with-exit/exit-by-exception for stream, printer, jsonfile, csvfile, line, text, avro" % nso)
     nrot = 0
-    for tkind, ops, clock, pre, archive in rotation_plan(ctx.tier):
+    for item in rotation_plan(ctx.tier):
+        tkind, ops, clock, pre, archive = item[:5]
         nrot += 1
-        jobs.append((("rotation", root, (tkind, ops, clock, pre, archive)), ("rotation", tkind, ops, clock, pre, archive), True))
+        jobs.append((("rotation", root, tuple(item)), ("rotation",) + tuple(item), True))
     ctx.notes.append("rotation: %d scenarios (operation sequences over two/three hour buckets and close, clock stepped / frozen / "
                      "same second, with and without pre-existing files, default / plain / json / archive:// templates)" % nrot)
     return jobs
@@ -1249,7 +1412,11 @@ def _describe(meta):
         return "split %s (target spelled %s, urlparse %s) count=%d suffix-length=%d via %s history %s" % (
             meta["target"], meta.get("spelling"), meta.get("urlparse"), meta["count"], meta["suffix_length"], meta["via"],
             " ".join(meta["history"]))
-    return "rotation template=%s ops=%s clock=%s pre-existing=%s" % (meta["template"], meta["ops"], meta["clock"], meta["pre"])
+    if meta["kind"] == "stdout":
+        return "stdout target %s (RecordWriter(%r), stdout %s) history %s" % (
+            meta["writer"], meta.get("uri"), "a terminal" if meta.get("terminal") else "a buffered file", " ".join(meta["history"]) or "(open only)")
+    return "rotation template=%s name=%r ops=%s clock=%s pre-existing=%s" % (meta["template"], meta.get("name", "records"), meta["ops"],
+                                                                          meta["clock"], meta["pre"])
 
 
 def search(ctx, reason):
@@ -1366,7 +1533,10 @@ def replay(obj):
                            matrix=obj.get("matrix", True), spelling=obj.get("spelling", "abs"))
         elif kind == "rotation":
             ops = tuple("C" if o == "C" else (o[0], o[1]) for o in obj["ops"])
-            c = rotation_case(obj["template"], ops, obj["clock"], obj["pre"], str(wd), obj.get("archive", False))
+            c = rotation_case(obj["template"], ops, obj["clock"], obj["pre"], str(wd), obj.get("archive", False),
+                              name=obj.get("name", "records"))
+        elif kind == "stdout":
+            c = stdout_case(obj["writer"], tuple(obj["history"]), str(wd))
         elif kind == "next-path":
             _, problems = next_path_cases()
             print("replay next-path:", problems[:3] or "ok")
